@@ -122,6 +122,13 @@ class Check:
         for name, txt in self.assumptions.items():
             if not txt.startswith("Closed under the global context"):
                 self.notes.append(f"{name} depends on: {txt[:400]}")
+        if self.tier == "thorough":
+            for p in props_v:
+                if p in res.compiled:
+                    ok, txt = coq.run_coqchk(p)
+                    self.extra_cov.setdefault("coqchk", {})[p] = txt[-1500:]
+                    if not ok:
+                        self.broken.append(f"Coqchk:{p} [independent checker rejected the compiled file: {txt[-300:]}]")
         # hand-modelled code whose source fingerprint changed => ask for a larger correspondence budget
         try:
             exp = json.loads(FP_EXPECTED.read_text()) if FP_EXPECTED.exists() else {}
